@@ -597,7 +597,8 @@ def reaching_def(fn: ast.AST, name: str, at: ast.AST, unpack_calls: bool = False
     return None
 
 
-def expand_at(fn: ast.AST, expr: Optional[ast.AST], at: ast.AST, depth: int = 10, keep: Iterable[str] = (), unpack_calls: bool = False) -> Optional[ast.AST]:
+def expand_at(fn: ast.AST, expr: Optional[ast.AST], at: ast.AST, depth: int = 10, keep: Iterable[str] = (), unpack_calls: bool = False,
+              stop: Iterable[ast.AST] = ()) -> Optional[ast.AST]:
     """`expr` as evaluated at statement `at`, with local names replaced by the expressions that reach them
     (follows re-binding chains such as `m = a & b; m = m.all(-1)`).  Parameters and unresolvable names stay."""
     if expr is None:
@@ -605,6 +606,7 @@ def expand_at(fn: ast.AST, expr: Optional[ast.AST], at: ast.AST, depth: int = 10
     from .inline import clone
 
     keep = set(keep)
+    stop_ids = {id(x) for x in stop}
 
     def go(e: ast.AST, at_: ast.AST, d: int) -> ast.AST:
         if d <= 0:
@@ -615,7 +617,7 @@ def expand_at(fn: ast.AST, expr: Optional[ast.AST], at: ast.AST, depth: int = 10
                 if not isinstance(node.ctx, ast.Load) or node.id in keep:
                     return node
                 rd = reaching_def(fn, node.id, at_, unpack_calls)
-                if rd is None:
+                if rd is None or id(rd) in stop_ids or id(getattr(rd, "_orig", None)) in stop_ids:
                     return node
                 return go(rd.value, rd, d - 1)
 
